@@ -293,6 +293,9 @@ func verifC13(c *drv.Ctx) {
 			wp, we := c13expect(file, g, st, s)
 			dp, de := zzref.RefMultisetDiff(probes, wp), zzref.RefMultisetDiff(errs, we)
 			if dp == "" && de == "" {
+				if bad > 0 && idx%397 == 5 {
+					c.Sample(map[string]any{"command": g.name, "stack": st.name, "file": names, "stops_at_bad_line": s >= 0, "probes": zzref.RefMultiset(probes), "error_causes": fmt.Sprint(errs)})
+				}
 				c.Outcome(fmt.Sprintf("%s/%s/stop=%v/p=%d/e=%d", g.name, st.name, s >= 0, len(r.Frames)+len(r.Probes), len(errs)))
 				return
 			}
